@@ -259,7 +259,9 @@ def run_dump(spec, acc):
             returned = []
             kept = skipped = 0
             for ev in events:
-                kind, r = hist.safe_feed(dec, ev)
+                # every second session through all input formats, with the time stamps those carry: not increasing, as in a
+                # replayed or merged log, a time-of-day stamp past midnight, an uptime counter that wrapped
+                kind, r = hist.safe_feed_any(dec, ev, rng) if c % 2 else hist.safe_feed(dec, ev)
                 if kind == "ok" and r is not None:
                     returned.append((r, project.msg_proj(r), r.to_json()))
                     if not entries or r.PGN in nums or r.id.lower() in ids:
